@@ -18,14 +18,14 @@ CHECKS.update({
    text='For every history (all sequences to the depth + 6 long ones, several option sets) every storage-log position and every admissible durable image (tails lost/kept/cut at and inside write boundaries, +zeros/garbage) is recovered with leveldb.Open; the result must open, contain every sync-acknowledged batch and committed transaction, be explained by an in-order subset of issued batches, satisfy the LSM invariants and remain fully usable; thorough adds nested crashes inside recovery.',
    note='Crash model: metadata ops durable+ordered on return, content durable to last Sync; default non-strict options; histories on the default schedule.', design='4/C04'),
  'C05': dict(level='exploration', technique='stateless model checking: DFS over scheduler choice lists with iterative deviation bounding on the instrumented real code, happens-before state caching (cross-checked against the plain search on every run), porcupine linearizability oracle per execution',
-   text='Closed drivers (2-3 clients, colliding keys, real background goroutines) are executed under every schedule within the deviation bound (every departure from the deterministic default scheduler costs 1; quick bound 2, 3 on the smallest driver); each execution yields a timestamped call/return history that must be linearizable w.r.t. a map-with-batches model (snapshot and iterator creation as single operations).',
+   text='Closed drivers (2-5 clients, colliding keys, real background goroutines; among them victim-first drivers, readers sharing a one-block cache and the buffer pool, writers queued behind a transaction, CompactRange against a transaction commit) are executed under every schedule within the deviation bound (every departure from the deterministic default scheduler costs 1; quick bound 1-3, from two base schedules); most drivers run a second time with a scheduling point before every statement of the DB-level files of package leveldb and of table/reader.go (bound 1-2), which decides windows that contain no synchronisation operation; each execution yields a timestamped call/return history that must be linearizable w.r.t. a map-with-batches model (snapshot and iterator creation as single operations).',
    note='Bounded: schedules needing more deviations than the completed bound are not covered. SC memory assumed; timers fire at quiescence; scheduling points before every lock/atomic/channel/select/waitgroup op.', design='4/C05'),
  'C08': dict(level='fault_enumeration', technique='exhaustive single-fault (thorough: double-fault) position enumeration over the real DB on a fault-injecting storage under the deterministic scheduler, subset-explanation oracle before and after reopen',
    text='Per history one run per fault plan: k-th operation of each (kind,file type) x {fail once, fail 3x, half-written, performed-but-reported-failed, flipped read at 4 byte positions}; histories may close and reopen the DB under the plan (one or two journals to replay; fault pairs that leave two non-empty journals); contents while running and after clean close + fault-free reopen must be explained by all acknowledged writes plus a subset of failed ones; Open must succeed again once the injected failures stop, unless the fault itself tore durable bytes.',
    note='Faults begin after the initial Open; virtual-time settling; known findings D11 (manifest edit durable but reported failed) and F-C08-MF (a transient manifest misread made permanent by the tolerant default) are matched by signature.', design='4/C08'),
 
- 'C09': dict(level='exploration', technique='fault-plan enumeration plus stateless DFS over schedules (deviation bounding) on the instrumented real code with exact deadlock / virtual-time hang verdicts from the cooperative scheduler',
-   text='(a) every single-fault plan of the C08 engine is followed by a probe suite (Put, Get, iterator, transactions, CompactRange, Close); every call must return. (b) clients racing Close, SetReadOnly, transactions and CompactRange are explored under all schedules within the deviation bound. The scheduler owns every blocking primitive, so "never returns" is decided exactly: no goroutine enabled and no timer pending (deadlock) or the virtual clock passing one hour with a client call outstanding (hang).',
+ 'C09': dict(level='exploration', technique='fault-plan enumeration plus stateless DFS over schedules (deviation bounding, also at statement granularity, storage faults armed inside the window) on the instrumented real code with exact deadlock / virtual-time hang verdicts from the cooperative scheduler',
+   text='(a) every single-fault plan of the C08 engine is followed by a probe suite (Put, Get, iterator, transactions, CompactRange, Close); every call must return. (b) clients racing Close, SetReadOnly, transactions and CompactRange are explored under all schedules within the deviation bound, also with one storage fault armed during the window (failing journal / manifest / table operations, two readers of a cold table whose open or read fails, SetReadOnly while a flush keeps failing). The scheduler owns every blocking primitive, so "never returns" is decided exactly: no goroutine enabled and no timer pending (deadlock) or the virtual clock passing one hour with a client call outstanding (hang).',
    note='Virtual time (timers fire at quiescence); bounded schedules; faults start after the initial Open.', design='4/C09'),
 
  'C10': dict(level='exploration', technique='stateless DFS over schedules (deviation bounding, weighted budget on the queue drivers, happens-before state caching) of N concurrent writers plus a lock competitor and storage faults on the instrumented real code; deadlock verdict, linearizability, journal read-back and group-result oracles',
@@ -38,7 +38,7 @@ CHECKS.update({
  'C11': dict(level='model_checking', technique='explicit-state BFS over operation sequences including transaction bodies on the real DB, per-view reference models, storage-residue oracle',
    text='Sequences with OpenTransaction/Put/Delete/Write/Commit/Discard/Close-with-open-transaction and large-batch Write: after every transition the transaction view equals (state at open + its writes), DB/snapshot/fresh-snapshot views equal the state without them; after Commit all visible; after Discard/Close none, and once quiescent storage lists exactly live tables + journal(s) + manifest.',
    note='Crash around commit: C04; commit failures: C08/C09; concurrent readers: C05.', design='4/C11'),
- 'C20': dict(level='model_checking', technique='explicit-state BFS over operation sequences with an adversarial caller that scribbles over every argument and result buffer, on the pool/cache/compression/location option grid',
+ 'C20': dict(level='model_checking', technique='explicit-state BFS over operation sequences with an adversarial caller that scribbles over every argument and result buffer and over the spare capacity of exposed iterator slices, on the pool/cache/compression/location option grid',
    text='Every argument buffer is overwritten right after its call returns and every Get result after it was compared; full read-back after every step of every path against a model holding private copies, for 9 option sets covering buffer pool on/off, block cache on/off/tiny, snappy, data in tables vs buffers, DB/Snapshot/Transaction/iterator handles.',
    note='Aliasing is detected through its observable effect (a later wrong answer or a modified argument); state merge ignores cache contents but checks run along every explored path.', design='4/C20'),
 
@@ -47,7 +47,7 @@ CHECKS.update({
    note='Known finding: strict mode returns clean EOF for a cut inside a first-chunk header.', design='4/C12'),
 
  'C13': dict(level='model_checking', technique='exhaustive finite-domain enumeration on the real table Writer/Reader: every subset of a key universe x option grid, all movement sequences to a depth on every range against a cursor model, every single-byte alteration of the small tables',
-   text='Every subset (1024) of a 10-key prefix-sharing universe is written and read back per grid point (block size, restart interval, compression, bloom, filter base, cache/pool, raw and internal keys): Find/FindKey/Get/OffsetOf for 25 probes, and for 49 ranges every movement sequence of the stated depth over First/Last/Next/Prev/Seek against a sorted-list cursor; then every byte before the footer of the smallest tables is altered (3 patterns) and the battery must return only original pairs or corruption errors, never panic.',
+   text='Every subset (1024) of a 10-key prefix-sharing universe is written and read back per grid point (block size, restart interval, compression, bloom, filter base, cache/pool, raw and internal keys): Find/FindKey/Get/OffsetOf for 25 probes, and for 49 ranges every movement sequence of the stated depth over First/Last/Next/Prev/Seek against a sorted-list cursor, on tables with >= 6 entries also every sequence three moves longer over First/Last/Next/Prev/one Seek; then every byte before the footer of the smallest tables is altered (3 patterns) and the battery must return only original pairs or corruption errors, never panic.',
    note='Finite universe; depth-bounded movement sequences (2 quick / 3 thorough); footer not altered.', design='4/C13'),
  'C15': dict(level='model_checking', technique='exhaustive evaluation of the order and shortening laws over a finite universe of internal keys for five comparers, plus index routing through one-entry-per-block tables',
    text='All 320 internal keys (user keys over {0x00,a,0xff} up to length 3, seq {0,1,2,2^56-1}, both kinds) x 5 comparers: antisymmetry, identity, user-key-major/newest-first, probe placement on all pairs; transitivity on all triples; a<=Separator(a,b)<b and Successor(b)>=b on all ordered pairs for internal and user comparers; every stored key found in every table of <=4 one-entry blocks over a 24-key sub-universe.',
@@ -61,11 +61,11 @@ CHECKS.update({
    note='Movement depth 2-3 (quick) / 3-4 (thorough); table and memdb iterators are enumerated in C13 / C14.', design='4/C02'),
 
  'C14': dict(level='model_checking', technique='exhaustive operation-sequence enumeration on the real memdb against a sorted-map model, plus stateless DFS over schedules at statement granularity (vrewrite -stmt) of one writer against readers',
-   text='Every sequence to the depth over Put (3 keys x 3 value lengths) / Delete / Reset; after each Len, Size, Get/Contains/Find on probes and, at the deepest levels, every movement sequence on 27 ranges. Concurrent: scheduling points before every statement of package memdb; a writer (overwrite changing the value length, delete) against 1-2 readers under every schedule within the deviation bound; readers see strictly monotone keys and only pairs stored at some time.',
+   text='Every sequence to the depth over Put (3 keys x 4 values) / Delete / Reset; after each Len, Size, Get/Contains/Find on probes and, at the deepest levels, every movement sequence on 27 ranges; iterators positioned before the last operation of every sequence (First/Last/Seek) and moved after it must not panic, stay monotone and yield only pairs stored at some time. Concurrent: scheduling points before every statement of package memdb; a writer (overwrite changing the value length, delete) against 1-2 readers under every schedule within the deviation bound; readers see strictly monotone keys and only pairs stored at some time.',
    note='Concurrent part deviation-bounded (3 quick / 5 thorough on single-reader drivers).', design='4/C14'),
 
  'C17': dict(level='exploration', technique='exhaustive enumeration of all operation sequences to a depth on the real cache.Cache + LRU from one goroutine, plus stateless DFS over schedules (deviation bounding; atomics are scheduling points), both with instrumented values',
-   text='Sequential: every sequence of 5 (thorough 6) operations over a 20-operation alphabet on capacities 1 and 2; after every step the charge retained without any client handle - recomputed from the instrumented values, not read from the cache - fits the capacity, Evict*/Delete of an unpinned node finalise it at once, callbacks and finalisers run exactly once. Concurrent: 2-3 goroutines issue Get/Release, Get/hold, Delete with callback, Evict, EvictNS, EvictAll, SetCapacity, Close (forced or not) on colliding keys, also across a map grow; under every schedule within the bound: constructors never run while a value of the key is live, handles never carry a finalised value, values are finalised exactly once and only with no outstanding handle (unless force-closed), delete callbacks run once and never with a handle out, retained charge fits the capacity when no handle is out. Deadlocks inside the cache are counted but belong to C09.',
+   text='Sequential: every sequence of 5 (thorough 6) operations over a 20-operation alphabet on capacities 1 and 2; after every step the charge retained without any client handle - recomputed from the instrumented values, not read from the cache - fits the capacity, Evict*/Delete of an unpinned node finalise it at once, callbacks and finalisers run exactly once. Concurrent: 2-3 goroutines issue Get/Release, Get/hold, Delete with callback, Evict, EvictNS, EvictAll, SetCapacity, Close (forced or not) on colliding keys, also across a map grow (Delete of a pinned entry against the resize, one handle released by two goroutines); under every schedule within the bound, the small drivers a second time with a scheduling point before every statement of package cache: constructors never run while a value of the key is live, handles never carry a finalised value, values are finalised exactly once and only with no outstanding handle (unless force-closed), delete callbacks run once and never with a handle out, retained charge fits the capacity when no handle is out. Deadlocks inside the cache are counted but belong to C09.',
    note='Deviation bound 3-5 quick / 5-8 thorough.', design='4/C17'),
  'C19': dict(level='fault_enumeration', technique='explicit-state BFS over DB operation sequences; per settled closed state enumeration of manifest-loss/truncation/garbage variants and single-byte table damage, Recover by the real code, model comparison + LSM invariants',
    text='Every state to the depth: manifest and CURRENT removed, CURRENT removed, manifest cut at every record boundary -1/0/+1 and inside headers, manifest garbage -> Recover must give exactly the model contents, a well-formed LSM tree, a usable DB that reopens with Open. With the manifest gone, one byte per 16-byte stretch of each table data area (and all first blocks together) altered -> Recover succeeds, keys outside the damaged table read exactly as the model, others only values once written.',
@@ -74,8 +74,8 @@ CHECKS.update({
  'C07': dict(level='model_checking', technique='explicit-state BFS over DB operation sequences with held views plus explicit-state BFS over event sequences on the real version-reference loop (in-package driver), schedule search and a steady-state run',
    text='(a) sequences with held iterators/snapshots/discarded transactions/reopen: held views re-read completely after every step, no file removed while open, storage listing == live files whenever no view is held; (b) BFS over {pin, unpin, commit, failed commit, 5 virtual minutes} on the real session reference loop, also 254..300 commits behind a pinned version: tables of current/pinned versions always exist, after all pins are released storage == current version; (c) iterator scan racing flush/compaction under bounded schedules; (d) repeated overwrite+compact does not accumulate entries.',
    note='(b) uses synthetic one-table records through an overlay-added driver; depth 6 (4 behind long prefixes) quick, 8/6 thorough.', design='4/C07'),
- 'C18': dict(level='model_checking', technique='explicit-state BFS over DB operation sequences; in every state exhaustive method battery after Close / SetReadOnly / read-only reopen on a recording storage in audit mode; ownership script enumeration; bounded schedule search of calls racing Close',
-   text='In every reached state: Close then 30 method calls on DB, live snapshots and the open transaction plus a second Close -> errors only, no storage operation after Close returned, lock released; read-only reopen in audit mode -> contents equal the model incl. journal-only data, writes ErrReadOnly, zero mutating storage operations; SetReadOnly -> writes ErrReadOnly, reads equal the model, nothing mutated after settling; all <=4-step Open/Close scripts on three storages; single calls racing Close under all schedules within the bound.',
+ 'C18': dict(level='model_checking', technique='explicit-state BFS over DB operation sequences; in every state exhaustive method battery after Close / SetReadOnly / read-only reopen on a recording storage in audit mode; ownership script enumeration incl. a real directory with leftovers opened read-only through the file storage; bounded schedule search of calls racing Close',
+   text='In every reached state: Close then 30 method calls on DB, live snapshots and the open transaction plus a second Close -> errors only, no storage operation after Close returned, lock released; read-only reopen in audit mode -> contents equal the model incl. journal-only data, writes ErrReadOnly, zero mutating storage operations; a real directory in five leftover states (clean, stale or pending CURRENT.<n>, CURRENT.bak, stray temporary file) opened read-only through storage.OpenFile is served, refuses writes and is byte-identical afterwards; SetReadOnly -> writes ErrReadOnly, reads equal the model, nothing mutated after settling; all <=4-step Open/Close scripts on three storages; single calls racing Close under all schedules within the bound.',
    note='Single process (no cross-process file lock); iterators held across Close are outside the contract.', design='4/C18'),
 })
 NA = {}
